@@ -175,7 +175,7 @@ fn read_all(total: &[u8], ds: &[usize]) -> Result<Out, String> {
             Ok(x) => x,
             Err(e) => {
                 let fin = format!("err:{}", err_str(&e));
-                return Out { line: format!("{} -1 0 -", fin), evs, fin, header_version: None };
+                return Out { line: format!("{} 0 0 -", fin), evs, fin, header_version: None };
             }
         };
         let mut items: Vec<String> = vec![];
@@ -197,7 +197,7 @@ fn read_all(total: &[u8], ds: &[usize]) -> Result<Out, String> {
                 }
             }
         }
-        let maxcid = rd.cids().end - 1;
+        let maxcid = rd.cids().end;
         let line = format!("{} {} {} {}", fin, maxcid, items.len(), if items.is_empty() { "-".to_string() } else { items.join(" ") });
         Out { line, evs, fin, header_version: Some(ver) }
     })
@@ -550,10 +550,11 @@ impl Runner for R {
                 };
                 let r = read_all(&total, &ds);
                 // oracle: independent of the fragmentation; no panic; tick structure; sums
-                let whole = read_all(&total, &[]);
+                let whole = if ds.is_empty() { Ok(None) } else { read_all(&total, &[]).map(Some) };
                 match (&r, &whole) {
                     (Ok(a), Ok(b)) => {
-                        if a.line != b.line {
+                        if b.as_ref().map(|b| a.line != b.line).unwrap_or(false) {
+                            let b = b.as_ref().unwrap();
                             o.fail("C17/fragmentation-changes-output", format!("frag={} gives `{}`, unfragmented `{}`", frag, clip(&a.line), clip(&b.line)));
                         }
                         if let Some(v) = a.header_version {
@@ -1209,8 +1210,8 @@ impl Domain for D {
             let ver = if rng.chance(1, 6) { 1 } else { 2 };
             let hv = if rng.chance(1, 5) { 1 + rng.below(2) as u32 } else { 0 };
             let hdr = header(ver, hv);
-            let big = k % 10 == 3;
-            let size = if big { *rng.pick(&[9000usize, 17000, 30000]) } else { *rng.pick(&[40usize, 150, 400, 400, 1200]) };
+            let big = if thorough { k % 10 == 3 } else { k % 16 == 3 };
+            let size = if big { if thorough { *rng.pick(&[9000usize, 17000, 30000]) } else { *rng.pick(&[8500usize, 17000]) } } else { *rng.pick(&[40usize, 150, 400, 400, 1200]) };
             let s = gen_history(&mut rng, ver, size, big);
             let total = hdr.len() + s.len();
             emit(w, "run", ver, &hdr, &s, "w");
@@ -1235,7 +1236,7 @@ impl Domain for D {
             } else {
                 for _ in 0..6 {
                     let cut = rng.below(s.len() as u64 + 1) as usize;
-                    let f = if rng.chance(1, 2) { "b".to_string() } else { frag_random(&mut rng, hdr.len() + cut) };
+                    let f = if rng.chance(1, 2) && (thorough || s.len() < 3000) { "b".to_string() } else { frag_random(&mut rng, hdr.len() + cut) };
                     emit(w, "hash", ver, &hdr, &s[..cut], &f);
                 }
             }
